@@ -331,8 +331,18 @@ def Res.ofOption {α : Type} (o : Option α) (e : EvalErr) : Res α :=
   | some a => .ok a
   | none => .error e
 
-/-- `Value::to_string` -/
-def showInt (i : Int) : List Char := (toString i).toList
+def digitChar : Nat → Char
+  | 0 => '0' | 1 => '1' | 2 => '2' | 3 => '3' | 4 => '4' | 5 => '5' | 6 => '6' | 7 => '7' | 8 => '8'
+  | _ => '9'
+
+/-- decimal digits of `n`, most significant first (fuel `n + 1` is always enough) -/
+def natDigits : Nat → Nat → List Char
+  | 0, _ => []
+  | f + 1, n => if n < 10 then [digitChar n] else natDigits f (n / 10) ++ [digitChar (n % 10)]
+
+/-- `Value::to_string` (`i64`'s `Display`): a minus sign for negative numbers, then the decimal digits -/
+def showInt (i : Int) : List Char :=
+  if i < 0 then '-' :: natDigits ((-i).toNat + 1) (-i).toNat else natDigits (i.toNat + 1) i.toNat
 
 /-- `expand_variable` -/
 def expandVariable (name : Name) (env : Env) : Res Int :=
@@ -551,6 +561,14 @@ def parse (src : List Char) : Except SynErr (List Ast) :=
   let toks := tokenize (src.length + 1) src
   parseToks (2 * toks.length + 2) toks
 
+/-- `ast::portability::check`: the nodes that make it fail (`++`/`--`, prefix or postfix, anywhere in the
+    vector — also in operands that would not be evaluated) -/
+def isIncDec : Ast → Bool
+  | .pre .Increment => true
+  | .pre .Decrement => true
+  | .post _ => true
+  | _ => false
+
 def Outcome.ofRes : Res (Int × Env) → Outcome
   | .ok (v, env) => .value v env
   | .error e => .evalError e
@@ -567,5 +585,11 @@ def evalStr (src : List Char) (env : Env) : Outcome :=
   match parse src with
   | .error e => .syntaxError e
   | .ok ast => Outcome.ofRes (evalValue ast env)
+
+/-- `eval_with_config(expression, env, Config { portable: true })`; `none` = `PortabilityError` -/
+def evalStrPortable (src : List Char) (env : Env) : Option Outcome :=
+  match parse src with
+  | .error e => some (.syntaxError e)
+  | .ok ast => if ast.any isIncDec then none else some (Outcome.ofRes (evalValue ast env))
 
 end YashModel.Arith
